@@ -19,7 +19,7 @@ pub fn meta() -> Meta {
     Meta {
         id: "C06",
         level: "exploration",
-        rule: "forged tables through the real apply_filters+write_fasta and filter(update_kmers)+iter, compared with the row predicate of the statement: (a) every row over the 16 symbols {A,C,G,T,-,R,Y,S,W,K,M,B,D,H,V,N} for 1..3 samples and over {A,C,-,N,R,S} for 4..5 samples as a one-row table; (b) every ordered pair of 40 representative rows and every ordered triple of 12 (3 samples), both update_kmers settings, so the three parallel vectors must stay aligned under removal; (c) 6..12 samples with 'j copies of x, rest y' rows; each x 4 site filters x ambig-mask x no-gap-only-sites x filter-ambig-as-missing x every threshold 0..n (frequencies (t-1/2)/n); plus a CLI family through `ska align` option parsing. Non-trivial = a (table, setting) pair; distinct outcomes = distinct expected column multisets.".into(),
+        rule: "forged tables through the real apply_filters+write_fasta and filter(update_kmers)+iter, compared with the row predicate of the statement: (a) every row over the 16 symbols {A,C,G,T,-,R,Y,S,W,K,M,B,D,H,V,N} for 1..3 samples and over {A,C,-,N,R,S} for 4..5 samples (thorough: all 16 symbols for 4 samples, {A,C,G,-,N,R,S,W} for 5) as a one-row table; (b) every ordered pair of 40 representative rows and every ordered triple of 12 (3 samples), both update_kmers settings, so the three parallel vectors must stay aligned under removal; (c) 6..12 samples with 'j copies of x, rest y' rows; each x 4 site filters x ambig-mask x no-gap-only-sites x filter-ambig-as-missing x every threshold 0..n (frequencies (t-1/2)/n); plus a CLI family through `ska align` option parsing. Non-trivial = a (table, setting) pair; distinct outcomes = distinct expected column multisets.".into(),
         assumptions: vec!["all-gap rows are unreachable (asserted as an invariant by C10) and excluded".into(), "thresholds use frequencies whose ceil is robust in f64 (DESIGN §4 rule 2)".into()],
         exhaustive_when_uncapped: true,
     }
@@ -173,7 +173,7 @@ pub fn run(ctx: &Ctx, rep: &mut Report) {
     let mut capped = false;
     // (a) one-row tables
     for n in 1..=5usize {
-        let alpha: &[u8] = if n <= 3 { SYMS16 } else { b"AC-NRS" };
+        let alpha: &[u8] = if n <= 3 || (thorough && n == 4) { SYMS16 } else if thorough { b"ACG-NRSW" } else { b"AC-NRS" };
         let specs = all_specs(n);
         strings(alpha, n, |row| {
             if row.iter().all(|b| *b == b'-') {
@@ -219,7 +219,7 @@ pub fn run(ctx: &Ctx, rep: &mut Report) {
         }
         if !capped {
             rep.completed.push("(b) ordered pairs of 40 representative rows".into());
-            let m = if thorough { 20 } else { 12 };
+            let m = if thorough { 40 } else { 12 };
             // spread the picks over the representative list
             let small: Vec<Vec<u8>> = (0..m).map(|i| reps[(i * 7) % reps.len()].clone()).collect();
             't: for a in &small {
